@@ -65,6 +65,7 @@ type lineItem struct {
 	Why []string          `json:"why"`
 	Inv bool              `json:"inv"`
 	F9  bool              `json:"f9"`
+	F18 bool              `json:"f18"`
 }
 type lpCase struct {
 	Mode     string    `json:"mode"`
@@ -153,8 +154,20 @@ type guarded struct {
 	msg      string
 }
 
-// guard runs f under recover and a watchdog.
+// guard runs f under recover and a watchdog. The calls guarded here cost microseconds; a hang is reported only if the
+// call does not return within 60 s and a second attempt does not return within 180 s (the machine may be heavily
+// loaded; the runtime's per-case watchdog, set to 900 s by the checks, is the backstop).
 func guard(f func()) guarded {
+	g := guardOnce(f, 60*time.Second)
+	if g.hung {
+		if g2 := guardOnce(f, 180*time.Second); !g2.hung {
+			return g2
+		}
+	}
+	return g
+}
+
+func guardOnce(f func(), wait time.Duration) guarded {
 	done := make(chan guarded, 1)
 	go func() {
 		defer func() {
@@ -168,8 +181,8 @@ func guard(f func()) guarded {
 	select {
 	case g := <-done:
 		return g
-	case <-time.After(20 * time.Second):
-		return guarded{hung: true, msg: "no return within 20s"}
+	case <-time.After(wait):
+		return guarded{hung: true, msg: fmt.Sprintf("no return within %s (twice)", wait)}
 	}
 }
 
@@ -810,7 +823,7 @@ func runLine(cc *lpCase, c *lineItem, env *rt.Env) rt.Result {
 				return r
 			}
 			if g.panicked {
-				return fail("ParsePointsWithPrecision panics: " + g.msg, nil, nil)
+				return fail("ParsePointsWithPrecision panics: "+g.msg, nil, nil)
 			}
 			if g.hung {
 				return fail("ParsePointsWithPrecision hangs", nil, nil)
@@ -824,6 +837,9 @@ func runLine(cc *lpCase, c *lineItem, env *rt.Env) rt.Result {
 					var pats []string
 					if strings.Contains(input, "\\\\=") {
 						pats = append(pats, "field_section_double_backslash_before_equals")
+					}
+					if onlyRawTagOrder(probs, o.Tags) {
+						pats = append(pats, "lp_tags_sorted_by_escaped_key")
 					}
 					r := rt.Fail(0, fmt.Sprintf("input %q precision %s: returned point %d (%q) violates the point invariants: %s", input, prec, i, safeKey(p), strings.Join(probs, "; ")),
 						probs, nil, pats...)
@@ -952,6 +968,22 @@ func runLine(cc *lpCase, c *lineItem, env *rt.Env) rt.Result {
 	return rt.Result{OK: true, Evals: evals, Drift: drift, Nontrivial: nAcc > 0, Sig: sig}
 }
 
+// onlyRawTagOrder: the only violated invariant is the order of the raw tag keys, and the tags are strictly sorted by
+// their escaped keys (the order scanKey establishes): the predicate of finding F18.
+func onlyRawTagOrder(probs []string, tags [][2]string) bool {
+	for _, p := range probs {
+		if !strings.HasPrefix(p, "tag keys not sorted") {
+			return false
+		}
+	}
+	for i := 1; i < len(tags); i++ {
+		if strings.Compare(escTag(tags[i-1][0]), escTag(tags[i][0])) >= 0 {
+			return false
+		}
+	}
+	return len(probs) > 0
+}
+
 func appendOnce(xs []string, x string) []string {
 	for _, y := range xs {
 		if y == x {
@@ -1020,7 +1052,9 @@ func runPad(c *lpCase, env *rt.Env) rt.Result {
 	line := sb.String()
 	var pts []models.Point
 	var err error
-	g := guard(func() { pts, err = models.ParsePointsWithPrecision([]byte("a a=1\n"+line+"\na a=1"), time.Unix(0, 0), "ns") })
+	g := guard(func() {
+		pts, err = models.ParsePointsWithPrecision([]byte("a a=1\n"+line+"\na a=1"), time.Unix(0, 0), "ns")
+	})
 	desc := fmt.Sprintf("padded %s: len(key)=%d + 4 + len(field key)=%d = %d", c.Where, keyLen, fLen, c.Total)
 	if g.panicked || g.hung {
 		r := rt.Fail(0, desc+": parser panics/hangs: "+g.msg, nil, nil)
